@@ -912,13 +912,21 @@ class Engine:
             raise Unsupported("drift: statement(s) a contract hint / cut is keyed on no longer exist: %s" % missing)
 
     def _check_loop_fingerprints(self, func, contract):
+        """drift check of the loop contracts.  A loop contract is a proof aid, not part of the specification: when the loops of the
+        function no longer match the fingerprints (a loop was vectorised away, rewritten or moved), ALL loop contracts of the function
+        are switched off for this run and the function is verified against its pre/postconditions without them - loop-free code can
+        still be decided, code with loops of symbolic length then ends as `needs an invariant` (undecided), never as a refutation of an
+        invariant applied to the wrong loop."""
         loops = [n for n in _walk_loops(func.node)]
+        self.loops_off = None
         for ordn, lc in contract.loops.items():
             if ordn >= len(loops):
-                raise Unsupported("drift: loop #%d no longer exists in %s" % (ordn, contract.qualname))
+                self.loops_off = "loop #%d no longer exists in %s" % (ordn, contract.qualname)
+                break
             hdr = _loop_header(loops[ordn])
             if lc.fingerprint not in hdr:
-                raise Unsupported("drift: loop #%d of %s is now `%s` (expected `%s`)" % (ordn, contract.qualname, hdr, lc.fingerprint))
+                self.loops_off = "loop #%d of %s is now `%s` (expected `%s`)" % (ordn, contract.qualname, hdr, lc.fingerprint)
+                break
 
     def run_path(self, func, contract, prefix):
         V.ENGINE = self
@@ -1283,6 +1291,8 @@ class Engine:
         c = self.contracts.get(key)
         if key == self.top_key:
             c = self.cur_contract
+            if getattr(self, "loops_off", None):
+                return None
         if c is None:
             return None
         loops = list(_walk_loops(func.node))
@@ -1306,7 +1316,7 @@ class Engine:
                     elif self.must(z3.Not(t)):
                         c = False
                     else:
-                        raise Unsupported("while loop with symbolic guard needs an invariant (line %d)" % st.lineno)
+                        raise Unsupported("while loop with symbolic guard needs an invariant (line %d)%s" % (st.lineno, ("; drift: " + self.loops_off) if getattr(self, "loops_off", None) else ""))
                 if not self.truth(c):
                     break
                 n += 1
@@ -1375,7 +1385,7 @@ class Engine:
             return
         lc = self.loop_contract(st, env)
         if lc is None or lc[0] is None:
-            raise Unsupported("for loop over a sequence of symbolic length needs an invariant (line %d: %s)" % (st.lineno, _loop_header(st)))
+            raise Unsupported("for loop over a sequence of symbolic length needs an invariant (line %d: %s)%s" % (st.lineno, _loop_header(st), ("; drift: " + self.loops_off) if getattr(self, "loops_off", None) else ""))
         lc, ordn = lc
         tag = "loop%d" % ordn
         n = seq.n
